@@ -64,6 +64,10 @@ Definition array_arg_checks : list arg_check := [
   mkArgCheck "internal/resolver/resolve.go" "Visit" "n.Args" "arg" true 0 true
 ].
 Definition split_args_init : list string := ["expr:str"; "lit:ast.VarExpr"].
+Record counter_site : Type := mkCounter { c_func : string; c_field : string; c_incs : nat; c_decs : nat; c_returns_between : nat }.
+Definition counter_sites : list counter_site := [
+  mkCounter "loopStmts" "loopDepth" 1 1 0
+].
 Definition gen_tokens : list (string * Z) := [
   ("ILLEGAL", 0);
   ("EOF", 1);
